@@ -109,7 +109,7 @@ pub fn run(input: &[u8], cfg: &Cfg) -> Trace {
             Ok(Some(Ok(t))) => { let off = it.last_emitted_tag_offset(); tr.items.push((t, off)); }
             Ok(Some(Err(e))) => {
                 let e = conv(&e);
-                if matches!(e, E::TooBig { .. }) && it.buffer.len() > before.max(16) { tr.alloc_before_reject = true; } // growing an undersized buffer to the 16 header bytes is not a payload allocation
+                if matches!(e, E::TooBig { .. }) && it.buffer.len() > before.max(64) { tr.alloc_before_reject = true; } // growing an undersized buffer to a small header look-ahead (16 bytes today) is not a payload allocation
                 tr.err = Some(e);
                 return tr;
             }
@@ -461,7 +461,7 @@ fn check_total(input: &[u8], cfg: &Cfg, tr: &Trace, rep: &mut Report) {
     if tr.ended { rep.clause("C05: after None with the source exhausted further calls keep returning None", tr.fused_ok, &ctx); }
     let m = match cfg.max { None => 4_000_000_000usize, Some(Some(m)) => m, Some(None) => usize::MAX };
     if cfg.buffered.is_empty() && m != usize::MAX {
-        rep.clause("C17: the buffer never grows beyond max(size limit, initial capacity, 16)", tr.peak_buf <= m.max(cfg.cap).max(16), &ctx);
+        rep.clause("C17: the buffer never grows beyond max(size limit, initial capacity, a small header look-ahead)", tr.peak_buf <= m.max(cfg.cap).max(64), &ctx);
         rep.clause("C17: an element declaring a size above the limit is rejected before any allocation for its payload", !tr.alloc_before_reject, &ctx);
         if let Some(E::TooBig { size, .. }) = &tr.err { rep.clause("C13/C17: the size error is only raised for a declared size above the configured limit", *size > m, &ctx); }
     }
@@ -1021,9 +1021,9 @@ pub fn unit_sizes() -> Report {
                         // rejected before any allocation: with the size error unless an earlier check already rejects it
                         let earlier = matches!(t.err, Some(E::BadData { .. }) | Some(E::Hier { .. }) | Some(E::Oversize { .. }) | Some(E::BadId { .. }));
                         rep.clause("C17/C13: an element declaring more than the limit is rejected (size error unless an earlier check rejects it) under every tolerance mask", matches!(t.err, Some(E::TooBig { size, .. }) if size as u64 == n) || earlier, &ctx);
-                        rep.clause("C17: a rejected oversize declaration causes no allocation for its payload", t.peak_buf <= cap.max(16), &ctx);
+                        rep.clause("C17: a rejected oversize declaration causes no allocation for its payload", t.peak_buf <= cap.max(64), &ctx);
                     } else if !(numeric_too_long && n > 8) {
-                        rep.clause("C17: an element within the limit whose payload is missing costs at most its declared size", t.peak_buf as u64 <= (cap.max(16) as u64).max(n), &ctx);
+                        rep.clause("C17: an element within the limit whose payload is missing costs at most its declared size", t.peak_buf as u64 <= (cap.max(64) as u64).max(n), &ctx);
                         rep.clause("C13/C17: the size error is only raised for a declared size above the configured limit", !matches!(t.err, Some(E::TooBig { .. })), &ctx);
                     }
                 } }
